@@ -81,6 +81,14 @@ def run(R, tier, seed, driver_ok):
         for name in ('NCA', 'MLKR'):
             mod = mnca if name == 'NCA' else mmlkr
             yy = y if name == 'NCA' else (y + 0.3 * rng.randn(n))
+            Xa = X
+            if name == 'NCA' and rep % 3 == 1:
+                # points that are alone in their class, lying among the others: they have no same-class neighbour themselves but
+                # are possible (wrong) neighbours of every other point
+                ns = int(rng.randint(1, 4))
+                Xs = X[rng.choice(n, ns, replace=False)] + 0.3 * rng.randn(ns, d)
+                Xa = np.vstack([X, Xs]); yy = np.concatenate([y, y.max() + 1 + np.arange(ns)])
+                p_ = rng.permutation(len(yy)); Xa, yy = Xa[p_], yy[p_]
             cap = {}
             orig = mod.minimize
 
@@ -99,7 +107,7 @@ def run(R, tier, seed, driver_ok):
             try:
                 with warnings.catch_warnings():
                     warnings.simplefilter('ignore')
-                    est = (NCA if name == 'NCA' else MLKR)(init=init, n_components=nc, max_iter=max_iter, random_state=int(rng.randint(1 << 30))).fit(X, yy)
+                    est = (NCA if name == 'NCA' else MLKR)(init=init, n_components=nc, max_iter=max_iter, random_state=int(rng.randint(1 << 30))).fit(Xa, yy)
             except Exception as e:
                 R.violation(f'{name}/fit-raises-{type(e).__name__}', f'{name}.fit raised {type(e).__name__}: {str(e)[:200]}', {'learner': name}); continue
             finally:
@@ -107,10 +115,10 @@ def run(R, tier, seed, driver_ok):
             k = d if nc is None else nc
             L0 = cap['x0'].reshape(k, d)
             Lf = np.asarray(est.components_)
-            doc = (lambda L_: nca_doc(L_, X, yy)) if name == 'NCA' else (lambda L_: mlkr_doc(L_, X, yy))
-            case = {'learner': name, 'init': init, 'n_components': nc, 'max_iter': max_iter, 'X': X, 'y': yy}
-            R.case(('c10', name, X.tobytes().hex()[:48], init, nc, max_iter), True,
-                   sample={'learner': name, 'n': n, 'd': d, 'init': init, 'n_components': nc, 'max_iter': max_iter, 'nit': int(cap['nit'])}, branch=f'{name}:fit')
+            doc = (lambda L_: nca_doc(L_, Xa, yy)) if name == 'NCA' else (lambda L_: mlkr_doc(L_, Xa, yy))
+            case = {'learner': name, 'init': init, 'n_components': nc, 'max_iter': max_iter, 'X': Xa, 'y': yy}
+            R.case(('c10', name, Xa.tobytes().hex()[:48], init, nc, max_iter), True,
+                   sample={'learner': name, 'n': len(Xa), 'd': d, 'init': init, 'n_components': nc, 'max_iter': max_iter, 'nit': int(cap['nit'])}, branch=f'{name}:fit')
             o0, of = doc(L0), doc(Lf)
             if name == 'NCA' and of < o0 - 1e-9 * max(1, abs(o0)):
                 R.violation('NCA/worse-than-init', f'NCA objective at the result ({of:.8g}) is smaller than at the initialisation ({o0:.8g})', case)
@@ -127,7 +135,7 @@ def run(R, tier, seed, driver_ok):
                 val, grad = sign * val, sign * np.asarray(grad).reshape(Lr.shape)
                 dv = doc(Lr)
                 c2 = dict(case, L=Lr)
-                R.case(('c10', name, X.tobytes().hex()[:32], Lr.tobytes().hex()), True, branch=f'{name}:value-gradient:k={"<d" if Lr.shape[0] < d else "d"}')
+                R.case(('c10', name, Xa.tobytes().hex()[:32], Lr.tobytes().hex()), True, branch=f'{name}:value-gradient:k={"<d" if Lr.shape[0] < d else "d"}')
                 if abs(val - dv) > 1e-9 * max(1.0, abs(dv)):
                     R.violation(f'{name}/value-differs-from-documented', f'{name}: value driving the optimiser {val:.10g} ≠ documented objective {dv:.10g}', c2)
                 G = fd_grad(doc, Lr)
@@ -135,12 +143,12 @@ def run(R, tier, seed, driver_ok):
                     R.violation(f'{name}/gradient-differs-from-derivative', f'{name}: gradient driving the optimiser differs from the derivative of the documented objective (max diff {np.abs(G - grad).max():.3g}, scale {np.abs(G).max():.3g})', c2)
                 op = 'nca_obj' if name == 'NCA' else 'mlkr_obj'
                 ys = ' '.join(map(str, yy.tolist())) if name == 'NCA' else bits(yy)
-                lines.append(f'{op} {Lr.shape[0]} {d} {n} {bits(Lr)} {bits(X)} {ys}')
+                lines.append(f'{op} {Lr.shape[0]} {d} {len(Xa)} {bits(Lr)} {bits(Xa)} {ys}')
                 meta.append((val, 1e-9 * max(1.0, abs(val)), op, c2))
                 # the gradient: the model's transcription of the code's W_sym route (C10_nca_gradient / C10_mlkr_gradient prove
                 # it to be the derivative of the documented objective) against the array handed to L-BFGS
                 gop = 'nca_grad' if name == 'NCA' else 'mlkr_grad'
-                glines.append(f'{gop} {Lr.shape[0]} {d} {n} {bits(Lr)} {bits(X)} {ys}')
+                glines.append(f'{gop} {Lr.shape[0]} {d} {len(Xa)} {bits(Lr)} {bits(Xa)} {ys}')
                 gmeta.append((grad.copy(), gop, c2))
         # ------------------------------------------------------------ LMNN
         kk = int(rng.choice([1, 2, 2, 3, 3]))
